@@ -41,7 +41,7 @@ Plain(k, ind, sid) == Ln(k, ind, sid, 0, FALSE, FALSE, FALSE, FALSE, FALSE, 0, F
 (* Building blocks -> lines *)
 
 \* shapes of a statement block
-Len1  == {"one", "expr", "semi", "cmt", "badone"}
+Len1  == {"one", "expr", "semi", "cmt", "badone", "star"}     \* star: "from m import *" (dropped by the dump command)
 ShapeLen(s)  == CASE s \in Len1 -> 1
                   [] s \in {"ml2", "mlx2", "cmp2", "trunc2", "pair2"} -> 2
                   [] OTHER -> 3                               \* ml3 tri3 cmp3 deco3 braw3
